@@ -343,7 +343,6 @@ struct World {
 
     // tear down without tripping over "destroy of pending future"
     void teardown() {
-        vt::guard_locks = true;
         s.reset();                 // drops every promise still set
         gf.reset();
         gen.reset();
@@ -353,7 +352,6 @@ struct World {
                 (void) sl.f.release();   // cannot be destroyed: leak it
             }
         }
-        vt::guard_locks = false;
     }
 };
 
@@ -634,7 +632,6 @@ struct StartWorld : World, vt::Hooks {
                 else {
                     expect = all_pending_as("canceled");
                     destroying = true;
-                    vt::guard_locks = true;
                     s.reset();
                     phase = "destroyed";
                 }
@@ -662,7 +659,7 @@ int main() {
         vt::post_wait = false;
         vt::where = sc.id.c_str();
         vt::guard_locks = true;
-        alarm(60);   // watchdog only: a scenario takes microseconds
+        alarm(20);   // watchdog only: a scenario takes milliseconds
         // a scenario spans several lifetimes: ... Destroy, Construct, ... / ... DestroyAfterStart, Restart, ...
         bool start = sc.hdr.at("mode").as_str("manual") == "start";
         std::size_t pos = 0;
